@@ -798,8 +798,25 @@ fn gen_c11(out: &mut Out, rng: &mut Rng, thorough: bool) {
     } else {
         [0usize, 1, 2, 4, 6, 9, 13, 20, 26, 33, 39].iter().map(|&v| (v, v % 4)).collect()
     };
+    // dark-heavy / light-heavy payloads filling small symbols: the dark-ratio term decides among close candidates
+    for v in 0..(if thorough { 10 } else { 5 }) {
+        for e in 0..4usize {
+            let cap = caps[2][e][v];
+            for pat in 0..4usize {
+                let inp: Vec<u8> = (0..cap)
+                    .map(|i| match pat {
+                        0 => 0xFF,
+                        1 => if i % 2 == 0 { 0xFF } else { 0xFE },
+                        2 => 0x00,
+                        _ => if i % 2 == 0 { 0x00 } else { 0x01 },
+                    })
+                    .collect();
+                out.job(move || select_line(&inp, e, 2, v, None));
+            }
+        }
+    }
     for (v, e) in cells {
-        let reps = if thorough { 6 } else if v < 10 { 12 } else { 4 };
+        let reps = if thorough { 6 } else if v < 13 { 12 } else { 4 };
         for k in 0..reps {
             let md = rng.below(3);
             let cap = caps[md][e][v];
